@@ -34,20 +34,21 @@ fn main() {
     };
     let mut ctx = Ctx::new(id, tier, seed, level_of(id));
     match id {
-        "C01" => vh::router::props::c01(&mut ctx),
+        "C01" => { vh::router::props::c01(&mut ctx); if !ctx.failed() { vh::net::c07s::run(&mut ctx, false, true); } }
         "C02" => vh::router::props::c02(&mut ctx),
         "C08" => vh::router::props::c08(&mut ctx),
         "C09" => vh::router::props::c09(&mut ctx),
-        "C10" => vh::router::props::c10(&mut ctx),
+        "C10" => { vh::router::props::c10(&mut ctx); if !ctx.failed() { vh::net::c10c::run(&mut ctx); } }
         "C03" => vh::net::c03::run(&mut ctx),
         "C04" => vh::net::c04::run(&mut ctx),
         "C05" => vh::pure::c05::run(&mut ctx),
         "C06" => vh::pure::c06::run(&mut ctx),
-        "C07" => vh::pure::c07::run_grammar(&mut ctx),
+        "C07" => { vh::pure::c07::run_grammar(&mut ctx); if !ctx.failed() { vh::net::c07s::run(&mut ctx, true, true); } c07_meta(&mut ctx) }
         "C11" => { vh::router::props::c11_router(&mut ctx); if !ctx.failed() { vh::net::c11::run_net(&mut ctx); } c11_meta(&mut ctx) }
         "C12" => vh::net::c12::run(&mut ctx),
         "C13" => vh::pure::c13::run(&mut ctx),
         "C14" => vh::pure::c14::run(&mut ctx),
+        "C15" => vh::net::c15::run(&mut ctx),
         "C16" => vh::router::props::c16(&mut ctx),
         "C17" => vh::net::c17::run(&mut ctx),
         _ => { eprintln!("unknown property {id}"); std::process::exit(2) }
@@ -61,11 +62,14 @@ fn replay(id: &'static str, leg: &str, case: &serde_json::Value) -> i32 {
     if id == "C03" { return vh::net::c03::replay(id, case); }
     if id == "C04" { return vh::net::c04::replay(id, case); }
     if id == "C05" { return vh::pure::c05::replay(id, leg, case); }
+    if (id == "C07" || id == "C01") && (leg == "server-names" || leg == "isolation") { return vh::net::c07s::replay(id, leg, case); }
     if id == "C07" && leg == "grammar" { return vh::pure::c07::replay(id, case); }
     if id == "C14" { return vh::pure::c14::replay(id, case); }
     if id == "C06" { return vh::pure::c06::replay(id, case); }
     if id == "C11" && leg == "stream-scripts" { return vh::net::c11::replay(id, case); }
     if id == "C17" { return vh::net::c17::replay(id, case); }
+    if id == "C15" { return vh::net::c15::replay(id, case); }
+    if id == "C10" && leg == "client-repliers" { return vh::net::c10c::replay(id, case); }
     if id == "C12" { return vh::net::c12::replay(id, case); }
     if id == "C13" { return vh::pure::c13::replay(id, case); }
     if leg.starts_with("rr-") { return vh::router::props::replay_rr(id, leg, case); }
@@ -77,4 +81,9 @@ fn c11_meta(ctx: &mut Ctx) {
     ctx.rule = "(a) scripts of 1-4 stream opens on a pool of 3 topics, some already used in the other messaging pattern, against a fresh real server: first frame of any of the eight kinds (registrations with valid and grammar-violating names; Message, BatchMessage, Error, Ok), followed by 0-5 frames of any kind incl. requests sized within 64 bytes of the wire limit (they fit until the server adds its routing tag) and replies with bogus tags; every accepted stream is probed for real service in its role, every touched topic is probed afterwards with well-behaved peers, and a process-wide panic hook watches the server tasks; (b) the same frame mixes fed straight into the real req/rep router with mock peers; non-trivial = the script contains a frame kind the role never sends, a cross-pattern registration, a non-registration first frame, a second replier, or a request near the limit".into();
     ctx.assumptions.push("authenticated peer, well-formed frames only (malformed bytes are C06)".into());
     ctx.assumptions.push("a second replier is answered Ok and then explicitly refused with REPLIER_ALREADY_BOUND: an explicit refusal, not a silent abandonment".into());
+}
+
+fn c07_meta(ctx: &mut Ctx) {
+    ctx.rule = "(a) strings for TopicName::try_from / (namespace, topic) pairs for create(): valid names with lengths concentrated on 2,3,63,64,65, one-edit invalid neighbours (illegal ASCII character anywhere, missing leading '/', third component, empty component, trailing newline), reserved-word placements (selium, seliumX, Selium, xselium, in the topic part), multi-byte first characters and multi-byte characters elsewhere, arbitrary Unicode; oracle = hand-written reference grammar (exact in both directions for ASCII; structural violations must be rejected for any Unicode; non-ASCII word characters are a gray zone), no panic, display round-trip, components, create() == try_from() == is_valid(); (b) the same (namespace, topic) pairs put on the wire with _create_unchecked in all four registration kinds against the real server: Error(INVALID_TOPIC_NAME) iff the reference rejects, else Ok; (c) 2-3 distinct valid names from confusable families (dash/underscore moved across the slash, swapped parts, case differences, shared prefixes/suffixes) used concurrently on one server with 1-2 publishers and subscribers each and tagged traffic: every subscriber receives exactly its own topic's messages, per publisher in order, nothing foreign; non-trivial = a string within one edit of the accept/reject boundary or containing a multi-byte character, a rejected wire name, or an isolation case".into();
+    ctx.assumptions.push("non-ASCII word characters: either verdict accepted (the regex \\w is Unicode-aware, the statement says 'letters, digits' without settling scripts)".into());
 }
